@@ -129,7 +129,9 @@ def traced_classes(kind):
 # A value is a tuple mirroring the Coq [pyval]:
 #   ("N",) ("B", bool) ("I", int) ("F", float) ("S", truthy) ("O", truthy)
 #   ("L", [v...]) ("T", [v...]) ("R", kind, mu, sigma, id, name)   name: None | (truthy, tag)
-_OTHER_T = [lambda: {"a": 1}, lambda: object(), lambda: {1, 2}, lambda: 3 + 4j, lambda: b"x", lambda: range(3)]
+_OTHER_T = [lambda: {"a": 1}, lambda: object(), lambda: {1, 2}, lambda: 3 + 4j, lambda: b"x", lambda: range(3),
+            # things that LOOK like numbers to float() but are not numbers: a validation that probes float(x) lets them through
+            lambda: "2", lambda: "1.5", lambda: b"3", lambda: " 4 ", lambda: "1e3", lambda: "inf", lambda: "-0"]
 _OTHER_F = [lambda: {}, lambda: set(), lambda: 0j, lambda: b"", lambda: range(0)]
 
 
